@@ -2,7 +2,8 @@
 override compatibility (R12) (DESIGN §4 C20)."""
 import ast
 
-from .. import rules
+from .. import guards, rules
+from ..paths import Walker
 from ..model import AnalysisError, call_name, loc, unparse, is_inf_literal, is_self_attr
 
 EXPLANATION = (
@@ -401,13 +402,41 @@ def progress_bar_numbers(ctx, P):
 
 def selection(ctx, P):
     ob = ctx.ob("SEL", "Simulation(exact=k): ExactNode for every node, ExactArrivalNode, decimal precision k")
-    fn = P.view("Simulation").method("__init__")[1]
-    okk = False
-    for x in ast.walk(fn):
-        if isinstance(x, ast.If) and unparse(x.test) == "exact":
-            # the three settings must be direct statements of the `if exact:` body (not under a further condition)
-            s = "\n".join(unparse(y) for y in x.body if not isinstance(y, (ast.If, ast.For, ast.While, ast.Try))).replace(" ", "")
-            okk = ("self.NodeTypes=[ExactNodefor_inrange(network.number_of_nodes)]" in s and "self.ArrivalNodeType=ExactArrivalNode" in s and "getcontext().prec=exact" in s)
+    sim = P.view("Simulation")
+    cls, fn = sim.method("__init__")
+    # on every path of the constructor (newly extracted helpers read through): with `exact` set, the last values of the three settings -- after set_classes
+    # has put the defaults -- are the exact classes and the requested precision; without it, no exact class is selected
+    TARGETS = ("self.NodeTypes", "self.ArrivalNodeType", "getcontext().prec")
+    w = Walker(P, sim, keep=lambda e: e.kind == "guard" or (e.kind == "assign" and e.d["target"] in TARGETS) or (e.kind == "call" and e.d["meth"] == "set_classes"),
+               track=lambda t, f: f.parent is None and "exact" in unparse(t), inline=rules.new_helper, loop_iters=(0, 1))
+    okk, n_ex = True, 0
+    for st in w.paths_of(cls, fn):
+        if st.status == "raise":
+            continue
+        facts = {}
+        for e in st.events:
+            if e.kind == "guard":
+                guards.assume(e.d["formula"], e.pol, facts)
+        ex = facts.get(("truth", "exact"))
+        last = {}
+        for e in st.events:
+            if e.kind == "call":
+                last = {}
+            elif e.kind == "assign":
+                last[e.d["target"]] = e.d["value"].replace(" ", "")
+        if ex is True:
+            n_ex += 1
+            nt = last.get("self.NodeTypes", "")
+            N = ("network.number_of_nodes", "self.network.number_of_nodes")
+            ok_nt = any(nt in ("[ExactNodefor_inrange(%s)]" % k, "[ExactNode]*%s" % k, "%s*[ExactNode]" % k) for k in N)
+            if not (ok_nt and last.get("self.ArrivalNodeType") == "ExactArrivalNode" and last.get("getcontext().prec") == "exact"):
+                okk = False
+        elif ex is False:
+            if any("Exact" in v for k, v in last.items() if k != "getcontext().prec"):
+                okk = False
+        else:
+            okk = False
+    okk = okk and n_ex > 0
     ob.ok("Simulation.__init__:exact")
     if not okk:
         ctx.violation(ob, "R12.exact-selection", "Simulation.__init__", "if exact: ...", "exact-selection", "exact mode must select ExactNode / ExactArrivalNode and set the decimal precision", loc(fn))
